@@ -147,5 +147,18 @@ PROPS["C07"] = dict(
                  "Final/Concrete profiles are only applied to concrete values"],
 )
 
+PROPS["C20"] = dict(
+    pkg="c20",
+    subs=[
+        dict(name="trim", test="TestTrim", quick=2500, thorough=80000, shards=12),
+        dict(name="trim-corpus", test="TestTrimCorpus", quick=400, thorough=20000, shards=4),
+    ],
+    technique="rapid-generated packages (schema layer + data layer repeating what the schema implies) and mutated trim testdata; metamorphic oracle: evaluated result before == after trim.Files, idempotence of trim",
+    level_text="exploration: packages in six schema styles (definition + pattern, bare pattern, label alias, comprehension over a list, comprehension over a struct, embedded definitions) with defaults, disjunctions, nested structs and lists, data that repeats a random subset of the implied values, split declarations, 1-2 files in either order; plus the repository's trim testdata inputs with one literal mutated.",
+    level_note="trusted: MarshalJSON of the evaluated package as the rendering of 'fully evaluated result with defaults resolved' (C10 checks it); format.Node/format.Source to compare files",
+    rule="package = schema style x 1-8 fields with defaults/constraints x 1-3 instances repeating implied values; oracle: trimmed files format, parse and build, final(before) == final(after) (JSON, or per-field JSON/error status when not concrete), second trim changes nothing. Non-trivial = trim removed something and the package has a default or a comprehension; distinct = package text.",
+    assumptions=["an error returned by trim.Files is a refusal, not a silent change, and is counted (class trim-error)"],
+)
+
 NOT_APPLICABLE = {}
 HOOK_COMMITS = []
